@@ -69,9 +69,9 @@ var c19Model = porcupine.Model{
 // either half of FNV-1a 64): the property is per metric name, so two such series must never share their newest timestamp
 var c19Colliding = [][2]string{
 	{"hc.53be5037", "hc.23f07f15"}, {"hc.8b22318d", "hc.913f4dc6"}, // fnv1a-32
-	{"hc.n88448", "hc.n104090"},                                      // fnv1-32
-	{"hc.1fdc0ee9", "hc.5fb19e8e"}, {"hc.78a20e07", "hc.b853f23b"},   // crc32 (IEEE)
-	{"hc.094366ea", "hc.7fd29ee0"}, {"hc.n54540", "hc.n330682"},      // low and high half of fnv1a-64
+	{"hc.n88448", "hc.n104090"},                                    // fnv1-32
+	{"hc.1fdc0ee9", "hc.5fb19e8e"}, {"hc.78a20e07", "hc.b853f23b"}, // crc32 (IEEE)
+	{"hc.094366ea", "hc.7fd29ee0"}, {"hc.n54540", "hc.n330682"}, // low and high half of fnv1a-64
 }
 
 func scenC19(x *Exec) {
